@@ -550,6 +550,15 @@ pub fn ed_op(op: &str, a: &[&str]) -> R {
             let p = EdwardsPoint::nonspec_map_to_curve::<Sha512>(&m);
             return ok_ed(&p);
         }
+        // `nonspec_map_to_curve` with an identity "digest": reaches the
+        // exceptional Elligator inputs no SHA-512 preimage search can reach
+        "nonspec_map_raw" => {
+            arity(a, 1)?;
+            let b = hx::<64>(a[0])?;
+            #[allow(deprecated)]
+            let p = EdwardsPoint::nonspec_map_to_curve::<PassThrough>(&b);
+            return ok_ed(&p);
+        }
         "from_slice" => {
             arity(a, 1)?;
             let b = unhex(a[0])?;
@@ -579,4 +588,37 @@ pub fn ed_op(op: &str, a: &[&str]) -> R {
         _ => return Err(BADREQ),
     }
     Ok(o)
+}
+
+/// A `Digest<OutputSize = U64> + Default` whose output is its input: the
+/// updates are buffered and the first 64 bytes (zero padded) are returned.
+#[derive(Default, Clone)]
+pub struct PassThrough(Vec<u8>);
+
+mod passthrough_impl {
+    use super::PassThrough;
+    use curve25519_dalek::digest::consts::U64;
+    use curve25519_dalek::digest::{FixedOutput, HashMarker, Output, OutputSizeUser, Reset, Update};
+
+    impl OutputSizeUser for PassThrough {
+        type OutputSize = U64;
+    }
+    impl Update for PassThrough {
+        fn update(&mut self, data: &[u8]) {
+            self.0.extend_from_slice(data);
+        }
+    }
+    impl FixedOutput for PassThrough {
+        fn finalize_into(self, out: &mut Output<Self>) {
+            for (i, o) in out.iter_mut().enumerate() {
+                *o = self.0.get(i).copied().unwrap_or(0);
+            }
+        }
+    }
+    impl Reset for PassThrough {
+        fn reset(&mut self) {
+            self.0.clear();
+        }
+    }
+    impl HashMarker for PassThrough {}
 }
